@@ -2,6 +2,7 @@
 package main
 
 import (
+	"github.com/criyle/go-sandbox/pkg/rlimit"
 	"context"
 	"os"
 	"strconv"
@@ -38,6 +39,8 @@ var env container.Environment
 
 func main() {
 	hx.Init()
+	// core files are off (soft 0) unless a case asks for them, but may be switched on per program (hard unlimited)
+	syscall.Setrlimit(syscall.RLIMIT_CORE, &syscall.Rlimit{Cur: 0, Max: ^uint64(0)})
 	scratch := os.Getenv("VERIF_SCRATCH")
 	limit := runner.Limit{TimeLimit: 10 * time.Second, MemoryLimit: runner.Size(1 << 30)}
 	hx.Cases(func(c map[string]any) map[string]any {
@@ -98,10 +101,18 @@ func main() {
 			} else if c["syncfunc"] == true {
 				sync = func(pid int) error { return nil }
 			}
+			// core: the program may write a core file (soft limit raised for it; the hard limit of this process is unlimited)
+			var rl []rlimit.RLimit
+			wd := "/"
+			if c["core"] == true {
+				rl = []rlimit.RLimit{{Res: syscall.RLIMIT_CORE, Rlim: syscall.Rlimit{Cur: 1 << 30, Max: ^uint64(0)}}}
+				wd, _ = os.MkdirTemp(scratch, "core")
+				defer os.RemoveAll(wd)
+			}
 			switch c["runner"].(string) {
 			case "ptrace":
-				r := &ptrace.Runner{Args: append([]string{hx.Target()}, args...), Env: []string{}, WorkDir: "/",
-					Limit: limit, Seccomp: hx.AllowAll(), Handler: allowAll{}, SyncFunc: sync}
+				r := &ptrace.Runner{Args: append([]string{hx.Target()}, args...), Env: []string{}, WorkDir: wd,
+					Limit: limit, Seccomp: hx.AllowAll(), Handler: allowAll{}, SyncFunc: sync, RLimits: rl}
 				return res(r.Run(ctx))
 			case "ns":
 				r, err := hx.NsRunner(scratch, append([]string{"/vb/probe_target"}, args...))
@@ -111,6 +122,7 @@ func main() {
 				defer os.RemoveAll(r.Root)
 				r.Limit = limit
 				r.SyncFunc = sync
+				r.RLimits = rl
 				return res(r.Run(ctx))
 			case "container", "container_after":
 				if env == nil {
@@ -123,6 +135,7 @@ func main() {
 				p := container.ExecveParam{Args: append([]string{"/vb/probe_target"}, args...), Env: []string{"PATH=/usr/bin:/bin"},
 					SyncAfterExec: c["runner"] == "container_after"}
 				p.SyncFunc = sync
+				p.RLimits = rl
 				return res(env.Execve(ctx, p))
 			}
 		}
